@@ -18,7 +18,7 @@
     ([P := fun _ => false] leaves "no block has time 0").
     [ctx_unused r0 steps]: the service module never hands the service context of the oracle
     request [r0] to another request (context ids are hashes of a counter in the service module). *)
-From Irismod Require Import Random.Model Random.Spec Random.Check Random.Proofs Random.Sound.
+From Irismod Require Import Random.Model Random.Spec Random.Check Random.Proofs Random.Sound Random.Pass.
 
 (** ** the value: a decimal in [0,1) with exactly 20 fractional digits
 
@@ -267,6 +267,16 @@ Theorem model_views_ok :
             (obs_of (run sha init steps) code ids ctxs facts) = true.
 Proof. exact model_views_ok_lemma. Qed.
 Print Assumptions model_views_ok.
+
+(** ... and the whole of clause 9 - the tracker that follows every accepted request through the
+    proven automaton AND examines the hypotheses on the way (requester asking twice in a block,
+    block time 0, service context named twice) - never fires on the model's own trace, for EVERY
+    history, without any hypothesis: an alarm of clause 9 always means that the implementation
+    showed something the model does not. *)
+Theorem model_passes_life_cycle_check :
+  forall (sha : hin -> Z) (steps : list step), model_life_check sha init tinit steps = true.
+Proof. exact model_passes_life_cycle_check_lemma. Qed.
+Print Assumptions model_passes_life_cycle_check.
 
 (** ** the compressed case format loses nothing
 
